@@ -583,3 +583,74 @@ _setitem_variant('int-list', 'int', 'list_any')
 # slice key + list value: proof attempted but unstable (nonlinear slice arithmetic inside the fold-matching
 # queries times out under load): not part of the suite; the form is covered by the bounded stand-in only
 _setitem_variant('indexlist-list', 'list_int', 'list_any')
+
+
+# ------------------------------------------------------------------ C06 / C03 fillna, to_object, T
+def _fillna_rejected(self, value):
+    if self._dtype is None or value is None:
+        return False
+    if S.accepts(value, DataType(self._dtype.kind, True)):
+        return False
+    return not S.can_promote(self._dtype.kind, type(value))
+
+
+@contract('serif.vector.Vector.fillna', props=['C06', 'C03', 'C18'])
+class fillna:
+    """C06: fillna(x) replaces exactly the None positions and nothing else; for x other than None
+    the result reports itself non-nullable; a wider compatible x promotes the column (existing
+    elements converted); name and row flag kept."""
+    c03 = True
+    params = {'self': 'vector', 'value': 'scalar'}
+    raises = [(ValueError, _fillna_rejected, True)]
+
+    def requires(self):
+        return (self._dtype is None or S.valid_dtype(self._dtype)) and S.truthful(self)
+
+    def ensures(self, value, result):
+        if not (result._name == self._name and result._display_as_row == self._display_as_row):
+            return False
+        if self._dtype is None:
+            return len(result._underlying) == 0
+        if value is None:
+            return tuple(result._underlying) == tuple(self._underlying) and result._dtype.kind is self._dtype.kind
+        if S.accepts(value, DataType(self._dtype.kind, True)):
+            return (tuple(result._underlying) == tuple(value if x is None else x for x in self._underlying)
+                    and result._dtype == DataType(self._dtype.kind, False))
+        return (tuple(result._underlying) == tuple(value if x is None else S.convert_value(type(value), x) for x in self._underlying)
+                and result._dtype == DataType(type(value), False))
+
+
+@contract('serif.vector.Vector.to_object', props=['C03', 'C18'])
+class to_object:
+    c03 = True
+    params = {'self': 'vector'}
+
+    def ensures(self, result):
+        return (tuple(result._underlying) == tuple(self._underlying) and result._dtype.kind is object
+                and result._name == self._name and result._display_as_row == self._display_as_row)
+
+
+@contract('serif.vector.Vector.T', props=['C18', 'C03'])
+class vector_T:
+    c03 = True
+    params = {'self': 'vector'}
+
+    def requires(self):
+        return S.truthful(self)
+
+    def returns(self):
+        return vec(self._underlying, self._dtype, self._name, not self._display_as_row)
+
+
+@contract('serif.vector.Vector.__invert__', props=['C05', 'C06', 'C03'])
+class invert:
+    params = {'self': 'vector'}
+
+    def requires(self):
+        return self._dtype is None or S.valid_dtype(self._dtype)
+
+    def ensures(self, result):
+        if self._dtype is not None and self._dtype.kind is bool:
+            return (tuple(result._underlying) == tuple(None if x is None else (not x) for x in self._underlying)
+                    and result._dtype == self._dtype and result._name == self._name)
+        return S.same_view(result, S.unary_spec(self, operator.invert))
